@@ -67,14 +67,15 @@ class err_iter(object):
                 node = self.cur_node.get_parent()
                 if node is None:
                     raise IterOutOfBounds
+                if node.id == 'ROOT':
+                    # Stay on the closed interchange: a following
+                    # interchange will be its next sibling
+                    raise IterOutOfBounds
                 if not node.is_closed():
                     raise IterOutOfBounds
                 if self.cur_node in self.visit_stack:
                     del self.visit_stack[-1]
                 self.cur_node = node
-                if node.id == 'ROOT':
-                    raise IterOutOfBounds
-                #    raise IterDone
 
     def get_cur_node(self):
         return self.cur_node
